@@ -65,6 +65,16 @@ type Spec struct {
 	Tags       []string          `json:"tags"`
 }
 
+// repoDir is the root of the golang/telemetry tree under analysis: /repo, unless VERIF_REPO
+// names another checkout (used to try the checks on scratch worktrees carrying seeded
+// changes; registered commands never set it).
+func repoDir() string {
+	if d := os.Getenv("VERIF_REPO"); d != "" {
+		return d
+	}
+	return "/repo"
+}
+
 // ---- engine ----
 
 type Intrinsic func(p *Path, fn *ssa.Function, args []Value) Value
@@ -190,7 +200,7 @@ func (e *Engine) findFunc(full string) *ssa.Function {
 // buildOverlay prepares overlay files: vrt packages, harness files, import-substituted sources.
 func (e *Engine) buildOverlay() (map[string][]byte, error) {
 	ov := map[string][]byte{}
-	repoRoot := "/repo"
+	repoRoot := repoDir()
 	// vrt support packages
 	vrtRoot := filepath.Join(e.verifDir, "harness", "vrt")
 	err := filepath.Walk(vrtRoot, func(path string, info os.FileInfo, err error) error {
